@@ -113,7 +113,7 @@ var cfgSeq int
 
 func exec(t []string) string {
 	switch t[0] {
-	case "ctx":
+	case "ctx", "ctxpow":
 		return pctx.Exec(t)
 	case "e2e":
 		return pctx.E2E(t)
@@ -215,7 +215,7 @@ func exec(t []string) string {
 
 func oracle(t []string, out string) *hx.Violation {
 	switch t[0] {
-	case "ctx":
+	case "ctx", "ctxpow":
 		return pctx.Oracle(t, out)
 	case "e2e":
 		return pctx.E2EOracle(t, out)
@@ -403,7 +403,7 @@ func nontrivial(t []string, out string) bool {
 }
 
 func bucket(t []string, out string) string {
-	if t[0] == "ctx" || t[0] == "e2e" {
+	if t[0] == "ctx" || t[0] == "ctxpow" || t[0] == "e2e" {
 		f := strings.Fields(out)
 		if len(f) >= 2 {
 			return t[0] + "/" + f[0] + " " + f[1]
